@@ -20,6 +20,7 @@ import runloop
 from common import CONFIG_INI, Quiet, known_open, pmap
 
 SIG_D14 = "empty-stage-no-data-file"
+SIG_D14B = "reference-to-empty-result-no-data-file"
 CFG = CONFIG_INI.replace("csvpath = collect, fail, print", "csvpath = collect, print")
 
 FILTERS = ['gt(line_number(), {k})', 'exists(#b)', 'not(empty(#a))', 'above(int(#a), {k})', 'in(#b, "x|y|z z")', 'yes()', 'lt(line_number(), {k2})',
@@ -102,22 +103,31 @@ def ref_job(job):
             out["errors"] = [str(e.error)[:100] for e in (u.errors or [])]
             out["expect"] = expect
             # a results reference as a file name replays exactly the referenced member's data.csv
-            paths.paths_manager.add_named_paths(name="replay", paths=['~id: rp~ $[*][ yes() ]'])
+            out["empty_ref"] = []
+
+            def replay(name, ref, lines):
+                """run a one-member group over the referenced data; a referenced member that collected no line has no data.csv
+                (open finding D14's other call site): recorded, not a scenario failure"""
+                try:
+                    f = paths.file_manager.get_named_file(ref)
+                    paths.paths_manager.add_named_paths(name=name, paths=[f'~id: {name}~ $[*][ yes() ]'])
+                    paths.collect_paths(pathsname=name, filename=ref)
+                    return f, [list(l) for l in paths.results_manager.get_named_results(name)[0].lines.next()]
+                except Exception as ex:  # noqa
+                    if lines == []:
+                        out["empty_ref"].append({"ref": ref, "exc": type(ex).__name__ + ": " + str(ex)[:120]})
+                        return None, None
+                    raise
             base = os.path.basename(expect['run_dir'])
             # by exact run-dir name when the name has no ".N" suffix (the reference grammar splits on dots), else by ':last'
             ref = f"$g.results.{base}.src" if "." not in base else f"$g.results.{base[:4]}:last.src"
             out["ref"] = ref
-            paths.collect_paths(pathsname="replay", filename=ref)
-            rp = paths.results_manager.get_named_results("replay")[0]
-            out["replayed"] = [list(l) for l in rp.lines.next()]
+            _, out["replayed"] = replay("replay", ref, expect["lines"])
             rlast = f"$g.results.{os.path.basename(expect['run_dir'])[:4]}:last.src"
-            out["last_file"] = paths.file_manager.get_named_file(rlast)
+            out["last_file"], _ = replay("replayl", rlast, expect["lines"])
             # ':first' names the oldest run of the group: its data.csv is what gets replayed
             rfirst = f"$g.results.{os.path.basename(first['run_dir'])[:4]}:first.src"
-            out["first_file"] = paths.file_manager.get_named_file(rfirst)
-            paths.paths_manager.add_named_paths(name="replay1", paths=['~id: rp1~ $[*][ yes() ]'])
-            paths.collect_paths(pathsname="replay1", filename=rfirst)
-            out["replayed_first"] = [list(l) for l in paths.results_manager.get_named_results("replay1")[0].lines.next()]
+            out["first_file"], out["replayed_first"] = replay("replay1", rfirst, first["lines"])
             out["first"] = first
     except Exception as ex:  # noqa
         out["exc"] = type(ex).__name__ + ": " + str(ex)[:200]
@@ -141,6 +151,12 @@ def run(ctx):
         jobs.append({"id": i, "files": {"f": rows}, "groups": {"g": members}, "runs": [{"method": "collect_paths", "pathsname": "g", "filename": "f", "new_instance": True}],
                      "config": CFG, "inspect": chain_inspect})
         meta.append((stages, prec, rows))
+    # the witness of the open finding empty-stage-no-data-file, in every run
+    wst = [{"scan": "*", "match": "[ no() ]"}, {"scan": "*", "match": "[ yes() ]"}]
+    jobs.append({"id": len(jobs), "files": {"f": [["id", "a", "b"], ["r1", "1", "x"], ["r2", "2", "y"]]},
+                 "groups": {"g": ["~id: s0 :~ $[*][ no() ]", "~id: s1 source-mode: preceding :~ $[*][ yes() ]"]},
+                 "runs": [{"method": "collect_paths", "pathsname": "g", "filename": "f", "new_instance": True}], "config": CFG, "inspect": chain_inspect})
+    meta.append((wst, [False, True], [["id", "a", "b"], ["r1", "1", "x"], ["r2", "2", "y"]]))
     res = pmap(ctx, groups.run_history, jobs, chunksize=2)
     # stage oracles: the same csvpath standalone over exactly the input the model says it reads
     sjobs, smap = [], {}
@@ -208,6 +224,8 @@ def run(ctx):
     for i in range(40 if quick else 800):
         nruns = rng.choice([1, 2, 3])
         rjobs.append((i, nruns, [gen_rows(rng) for _ in range(nruns)]))
+    # the witness of the open finding reference-to-empty-result-no-data-file, in every run: the oldest run of g collects no line
+    rjobs.append((len(rjobs), 2, [[["id", "a", "b"], [], []], [["id", "a", "b"], ["r1", "2", "x"], ["r2", "1", "yes"]]]))
     rres = pmap(ctx, ref_job, rjobs, chunksize=2)
     for (jid, nruns, rl), o in zip(rjobs, rres):
         if o["exc"]:
@@ -221,12 +239,18 @@ def run(ctx):
         if bad or g.get("hs") != want_hs:
             fails.append({"kind": "a variable / header reference does not evaluate to what the referenced group's most recent run left", "runs_of_g": nruns, "rows": rl,
                           "got": g, "expected": dict(want, hs=want_hs), "errors": o["errors"]})
-        elif o["replayed_first"] != o["first"]["lines"] or os.path.normpath(o["first_file"]) != os.path.normpath(o["first"]["data_file"]):
+        elif o["replayed_first"] is not None and (o["replayed_first"] != o["first"]["lines"] or os.path.normpath(o["first_file"]) != os.path.normpath(o["first"]["data_file"])):
             fails.append({"kind": "a ':first' results reference used as a file name did not replay the oldest run's data.csv", "rows": rl, "replayed": o["replayed_first"],
                           "data_csv_lines": o["first"]["lines"], "first_resolves_to": o["first_file"], "expected": o["first"]["data_file"]})
-        elif o["replayed"] != e["lines"] or os.path.normpath(o["last_file"]) != os.path.normpath(e["data_file"]):
+        elif o["replayed"] is not None and o["last_file"] is not None and (o["replayed"] != e["lines"] or os.path.normpath(o["last_file"]) != os.path.normpath(e["data_file"])):
             fails.append({"kind": "a results reference used as a file name did not replay the referenced member's data.csv", "rows": rl, "replayed": o["replayed"], "data_csv_lines": e["lines"],
                           "last_resolves_to": o["last_file"], "expected": e["data_file"]})
+    empty_refs = [(rl, x) for (jid, nruns, rl), o in zip(rjobs, rres) if not o["exc"] for x in (o.get("empty_ref") or [])]
+    if empty_refs:
+        if known_open(ctx.pid, SIG_D14B):
+            ctx.known(f"{SIG_D14B}: a results reference to a member that collected no line cannot be used as a file ({empty_refs[0][1]['exc']}; {len(empty_refs)} references this run)")
+        else:
+            ctx.violation("empty-reference", {"what": "a results reference naming a member that collected no line raises instead of giving no lines", "case": {"rows": empty_refs[0][0], **empty_refs[0][1]}, "references": len(empty_refs)})
     if d14:
         if known_open(ctx.pid, SIG_D14):
             ctx.known(f"{SIG_D14}: a chain stage that collects no line leaves no data.csv; its source-mode: preceding successor aborts the run with FileNotFoundError ({len(d14)} chains this run; witness C20_empty_stage_refuted)")
